@@ -359,8 +359,14 @@ impl Iterator for Cmap12Iter<'_> {
                 // Groups should be in order and non-overlapping so make sure
                 // that the start code of next group is at least
                 // current_end.
-                if next_group.range.start < group.range.end {
-                    next_group.range = group.range.end..next_group.range.end;
+                // Also avoid the end sliding backwards (a group contained in an
+                // earlier one) by taking the max of next.end and current_end as
+                // the new end, as in Cmap4Iter. Otherwise a later group could
+                // revisit code points that have already been produced.
+                let cur_end = group.range.end;
+                if next_group.range.start < cur_end || next_group.range.end < cur_end {
+                    next_group.range =
+                        next_group.range.start.max(cur_end)..next_group.range.end.max(cur_end);
                 }
                 self.cur_group = Some(next_group);
             }
